@@ -341,7 +341,9 @@ def run_scenario(sc, props):
             if 'C03' in props and cons_on:
                 if not csat(best):
                     viol.append(('reported-best-violates-constraints', 'step %d best %r cons=%s' % (k, best, sc['cons'])))
-                else:
+                elif sc['clip'] is not False:
+                    # (clip=False couples the constraints with a bounds constraint that RE-DRAWS an outside point at random:
+                    # the coupled function is not deterministic, so only the constraint clauses are demanded in that mode)
                     truth = red(rec.f(tuple(best)) if not sc['reducer'] else [rec.f(tuple(best)) / 2.0] * 2) + pval(best)
                     if not feq(truth, be):
                         viol.append(('reported-energy-is-not-energy-of-constrained-point', 'step %d best %r reported %r true %r' % (k, best, be, truth)))
